@@ -680,11 +680,18 @@ func (s *Service) serve(nc Conn) error {
 	s.nc = nc
 	s.ncmu.Unlock()
 	s.inCh = inCh
-	s.workcond = sync.Cond{L: &s.mu}
+	// A call made while the service was previously started, such as a query
+	// event sent from a store callback, may still be using the work queue or
+	// the timer queue. They are therefore replaced while holding the mutex.
+	s.mu.Lock()
+	if s.workcond.L == nil {
+		s.workcond.L = &s.mu
+	}
 	s.workbuf = make([]*work, s.inChannelSize)
 	s.workqueue = s.workbuf[:0]
 	s.rwork = make(map[string]*work, s.inChannelSize)
 	s.queryTQ = timerqueue.New(s.queryEventExpire, s.queryDuration)
+	s.mu.Unlock()
 
 	// Start workers
 	s.wg.Add(s.workerCount)
